@@ -148,6 +148,9 @@ func engine(family, profile string, seed uint64, n int, out string, shard int, i
 			}
 		} else {
 			c = eng.NewCase(g, i, nil)
+			if c.Sanitize != "" {
+				failures = append(failures, map[string]any{"id": i, "tags": []string{"sanitize"}, "detail": c.Sanitize})
+			}
 		}
 		stats.Add(c)
 		if len(only) > 0 && !c.RepeatsAgree() {
